@@ -234,6 +234,9 @@ def hook_limit():
 
 def run_tx(run, cfg, G):
     diff_run(run, G, ["tx"], "tx", tx_nontrivial, "tx")
+    # histories that reach the (hook-lowered) size limit: "a message whose serialization is refused contributes no bytes
+    # and leaves earlier enqueued messages and the connection usable" also covers a message refused for its size
+    diff_run(run, G, ["tx-bounds"], "tx", tx_nontrivial, "tx-at-the-limit", extra_args=["--limit", hook_limit()])
     def search():
         for off in (1, 2):
             diff_run(run, G, ["tx"], "tx", tx_nontrivial, f"tx-search{off}", tier="thorough", seed_offset=off, record=False)
@@ -243,7 +246,8 @@ def run_tx(run, cfg, G):
     run.cov["rule"] = ("histories of 1..12 operations over enqueue_call / send_call / send_reply / send_error / flush on the real Connection with a capturing "
                        "transport: (a) for every free-space value 0..600 a first message leaving exactly that much room, then a message of a chosen span; "
                        "(b) random histories with messages of 0..4 (thorough 0..40) growth steps, refused serialisations (custom Serialize error, bool map key) at any "
-                       "position and occasional transport write failures; reference bytes per message from serde_json::to_vec; non-trivial = at least one message accepted, "
+                       "position, chains (chain_call / append / send) after enqueued calls, and occasional transport write failures; plus the histories of scenario tx-bounds (messages around the hook-lowered size limit at "
+                       "every fill level, refused for their body or only for their terminator, then further traffic); reference bytes per message from serde_json::to_vec; non-trivial = at least one message accepted, "
                        "refused, or several writes; distinct = distinct case lines")
 
 
